@@ -251,6 +251,12 @@ WITNESS_SHAPES = [
     "t = { f = function() end }\nlocal u = nil\nu = { g = function() end }\n",
     "function g()\n  local function h() end\n  zz = 1\nend\n",
     "do local a = 1 end\nprint(function() local b = 2 end)\n",
+    # shapes of the defects repaired in round 2b (regression; the committed witnesses are in corpus/c19.*.txt)
+    "function foo()\n  t.x = 1\n  t.y = function() end\nend\nt = { z = 2 }\n",
+    "local x = 1\nlocal function x() end\nlocal x = { a = 1 }\n",
+    "function M.f() end\nfunction M:m(a) end\nM.v = 1\n",
+    "M = {}\nfunction M.own() end\n",
+    "t.f = nil\nfunction t:f() end\nlocal lt = {}\nlt.g = function() end\n",
 ]
 
 
@@ -639,7 +645,9 @@ TRUSTED = vlib.TRUSTED_COMMON + [
     "shared Lua front end model (lexer + parser, validated by C03's legs) supplies the AST with every Loc",
     "modelled, tied by correspondence on the real server: first-pass analysis as far as the symbol tables observe it "
     "(cgLocalVarDeclStat, cgLocalFuncDefStat, cgAssignStat/checkLeftAssign/handleNotNeedDefine, cgFuncDefExp, "
-    "cgTableConstructorExp, scope creation of every block statement), FindAllSymbol / FindAllLocalVal / FindAllVar, "
+    "cgTableConstructorExp, scope creation of every block statement), FindAllSymbol / FindAllLocalVal / FindAllVar "
+    "(one model flag per repaired defect, Symbols.fixes; deployed = all repairs), lexer.Location.Union, the workspace "
+    "merge of members defined on undefined names (generateAllGlobalMaps; ambiguous merges are skipped), "
     "transferSymbolVec, getQuerySymbols; annotation symbols (---@class) and _G./self. targets are outside the fragment",
     "Python judge in checks/c19.py: only labels correspondence breaks and cross-checks the Gallina judge",
 ]
